@@ -622,3 +622,5 @@ def run(ctx):
     boundaries.check_writes(ctx, 'C06.RW', 'C06')
     boundaries.check_guards(ctx, 'C06.RG', 'C06')
     boundaries.check_calls(ctx, 'C06.RC', 'C06')
+    from .. import boundaries as _b
+    _b.check_predicates(ctx, 'C06.RP', 'C06')
